@@ -268,6 +268,12 @@ class CFFFontSet(object):
                 topDict = TopDict(
                     GlobalSubrs=self.GlobalSubrs, cff2GetGlyphOrder=cff2GetGlyphOrder
                 )
+                # Use the CFF2 operator set, as TopDictIndex.produceItem does for a
+                # TopDict read from binary: compile() stores the glyph order in
+                # topDict.charset, and with the CFF1 operator order a second
+                # compile would then serialise a 'charset' operator (not a CFF2 one).
+                topDict.defaults = buildDefaults(topDictOperators2)
+                topDict.order = buildOrder(topDictOperators2)
                 self.topDictIndex = TopDictIndex(None, cff2GetGlyphOrder)
             self.topDictIndex.append(topDict)
             for element in content:
